@@ -130,7 +130,8 @@ def run_selftest(prop):
     cov = {"selftest": {k: len(v) for k, v in by.items()}, "selftest_wall_s": round(time.time() - t0, 1),
            "selftest_mutants_caught": sorted(by.get("caught", [])), "selftest_refactors_silent": sorted(by.get("silent", [])),
            "selftest_problems": [{"id": r[0], "status": r[1], "detail": r[2][:300]} for r in res if r[1] in ("MISSED", "FALSE-ALARM", "build-failed")],
-           "selftest_skipped": sorted(by.get("skipped", []))}
+           "selftest_skipped": sorted(by.get("skipped", [])),
+           "selftest_known_limits": sorted(by.get("known-limit", []))}
     for r in res:
         if r[1] in ("MISSED", "FALSE-ALARM"):
             print("SELFTEST-%s %s %s" % (r[1], r[0], r[2][:200]))
